@@ -1032,7 +1032,9 @@ impl<R: std::io::Read + std::io::Seek> FlacChannelReader<R> {
         )?;
 
         // seeking invalidates the current samples consumed
+        // and the previously decoded frame
         self.consumed = 0;
+        self.decoder.buf = Frame::default();
 
         // needed channel-independent samples
         while sample > pos {
